@@ -43,5 +43,23 @@ PROPS["C19"] = {
                     "field names are Go identifiers (contain no comma)"],
 }
 
+PROPS["C07"] = {
+    "variants": ["v1", "v2"],
+    "lean": ["Gengo.Props.C07"],
+    "level": "proof",
+    "level_text": "Invariant proved by induction over arbitrary add-sequences on the model of DefaultImportTracker + the Go LocalName "
+                  "function (both variants): path->name and name->path stay mutually inverse, names pairwise distinct, assigned names never "
+                  "change, the output package is never tracked, v2 names differ from the output package's leaf, names are non-keyword "
+                  "identifiers under an explicit decidable guard on the path, import lines are a sorted one-per-path rendering. Guards are "
+                  "shown necessary by decide-witnesses that are replayed on the real code (known findings).",
+    "level_note": "Trusted: Lean kernel, the model (validated by state dumps after every operation on >30k histories per variant), "
+                  "go/token's keyword list (transcribed), filepath.Base (transcribed), sort.Strings (contract only).",
+    "rule": "histories new(local); add*/addt*; lines; lookups over a path alphabet built to collide (shared leaves, punctuation-only "
+            "differences, keyword leaves, digit-leading and '_'-only leaves, Path-field overrides, empty package) x output packages "
+            "(none, sharing a leaf with a foreign package, equal to a foreign package); thorough adds all sequences of length <= 4 "
+            "over 8 colliding paths x 3 output packages. Non-trivial = at least two adds; distinct = distinct history.",
+    "assumptions": ["paths are valid UTF-8 without '\\' or '\"'"],
+}
+
 # properties not claimed, with the reason (kept current by hand)
 NOT_APPLICABLE = {}
